@@ -113,10 +113,11 @@ def gen_cases(rng, tier, count=None):
         c = gen.algo_case(rng, cheap[i % len(cheap)], tier, n=n, T=n, fams=fams, dim=int(rng.integers(1, 3)))
         c["_cost"] = 20.0
         cases.append(c)
+    light = ("SOO", "DOO", "DOO_delta", "StoSOO", "SequOOL", "StroquOOL", "Zooming")
     for c in cases:
-        if c["n"] <= 333 and rng.random() < 0.5:
+        if (c["n"] <= 333 or (c["algo"] in light and c["n"] <= 1300)) and rng.random() < 0.5:
             c["probe_stops"] = float(rng.choice([0.1, 0.3, 1.0])) if c["algo"] != "VROOM" else 0.05
-            if c["algo"] in ("T_HOO", "HCT", "VHCT", "Zooming", "SOO", "DOO", "DOO_delta", "StoSOO", "SequOOL"):
+            if c["algo"] in ("T_HOO", "HCT", "VHCT") + light:
                 c["probe_stops"] = 1.0  # cheap recommendation: every stopping time T <= n is probed
             c["_cost"] *= 3
     return cases
